@@ -104,7 +104,14 @@ def generate(rep, wd, variant, num, seed, module="ImgGen"):
 def decode(files, inmode="file", outmode="file", timeout=30):
     payload = [{"tool": f["tool"], "args": f["args"], "data": base64.b64encode(f["data"]).decode(), "inmode": inmode, "outmode": outmode,
                 "timeout": timeout, "name": f.get("name", "in.bin"), "outname": "out.png" if f["tool"] == "veftopng" else "out.bin"} for f in files]
-    return common.run_real("w_decode", payload, shards=min(common.NCPU, max(1, len(payload))))
+    res = common.run_real("w_decode", payload, shards=min(common.NCPU, max(1, len(payload))))
+    # a run that hit the alarm is repeated alone with a longer alarm: a hang persists, a slow moment on a loaded machine does not
+    late = [k for k, r in enumerate(res) if r["status"] == "timeout"]
+    if late:
+        again = common.run_real("w_decode", [dict(payload[k], timeout=max(90, 4 * timeout)) for k in late], shards=1)
+        for k, r in zip(late, again):
+            res[k] = r
+    return res
 
 
 def got_of(res):
